@@ -12,16 +12,19 @@ RULE = ("P1/P2: the optimizer recurrences are TLA+ state machines over exact rat
         "nor emitted, and the check fails as a tool error if no exact zero-gradient state was emitted); invariants: "
         "vhat = c^2, start at the optimum => stops after one step, Nesterov with momentum 0 = plain, scale equivariance"
         " of one step (start, linear terms / kinks and Adam's step size times s move the iterate by s); every third "
-        "case is replayed again at the scales 2^-130 and 2^90. Every reachable state (configuration, k) is emitted with"
-        " the exact k-th iterate; the harness calls optimize(.., maxsteps = k) (and larger budgets once the spec has "
-        "converged) and compares the returned vector (2^-40), the number of objective evaluations (= steps taken: stops"
-        " early only when nothing changed) and two runs bit for bit. LM: for 18 linear-in-parameter problems (wide and "
-        "short abscissa windows, 1..3 parameters) TLC computes the exact least-squares solution and s^2 (J^T J)^-1; the"
-        " harness runs LM from two poor starts: parameters (1e-7), covariance (1e-6), RSS not above the start; P3: "
-        "exponential / logistic / short-window line fits with noise, and overflow-prone logistic-growth models L "
-        "e^z/(1+e^z) from flat starts with budgets 1, 2, 5, 100 (descent and finiteness only), recorded and validated "
-        "by TLC (Trace_OptimLM): descent, finiteness, covariance shape, and the covariance certificate (J^T J) C = s^2 "
-        "I at the returned point in backward-error units (<= 64, measured <= 1).")
+        "case is replayed again at the scales 2^-130 and 2^90; the closed form of a run without kink crossing (proved "
+        "equal to the recurrence on the unrolled states) gives the iterates after 60 and 400 steps; an inert coordinate"
+        " (never a gradient) placed at -2^55 must stay while the other coordinate follows the recurrence. Every "
+        "reachable state (configuration, k) is emitted with the exact k-th iterate; the harness calls optimize(.., "
+        "maxsteps = k) (and larger budgets once the spec has converged) and compares the returned vector (2^-40), the "
+        "number of objective evaluations (= steps taken: stops early only when nothing changed) and two runs bit for "
+        "bit. LM: for 18 linear-in-parameter problems (wide and short abscissa windows, 1..3 parameters) TLC computes "
+        "the exact least-squares solution and s^2 (J^T J)^-1; the harness runs LM from two poor starts: parameters "
+        "(1e-7), covariance (1e-6), RSS not above the start, and LM::default() from a start at +-1000 reaches the "
+        "solution to 2e-5; P3: exponential / logistic / short-window line fits with noise, and overflow-prone logistic-"
+        "growth models L e^z/(1+e^z) from flat starts with budgets 1, 2, 5, 100 (descent and finiteness only), recorded"
+        " and validated by TLC (Trace_OptimLM): descent, finiteness, covariance shape, and the covariance certificate "
+        "(J^T J) C = s^2 I at the returned point in backward-error units (<= 64, measured <= 1).")
 ASSUMPTIONS = ["exactness horizon: k <= 6 (SGD) / 4 (Adam) steps because of 32-bit integers in TLC; k up to 200/2000 of the quantifier is not reached",
                "objectives restricted to those whose recurrences stay rational (quadratics for SGD, weighted absolute values for Adam)"]
 EXHAUSTIVE = True
